@@ -616,6 +616,8 @@ def ws_sub(text, old, new, n, what, cnt, rule):
     hits = list(rx.finditer(text))
     if n == -1 and len(hits) <= 1:
         n = len(hits)
+    if n == -2:  # x*: a purely mechanical rule (N11 reborrows), any number of occurrences
+        n = len(hits)
     if len(hits) != n:
         raise ExtractError('%s rule mismatch: %r occurs %d times, expected %d' % (what, old, len(hits), n))
     for m in reversed(hits):
@@ -771,11 +773,11 @@ def desugar_for(body, k, cnt):
 
 
 def parse_quoted_pair(arg):
-    m = re.match(r'\s*"((?:[^"\\]|\\.)*)"\s*=>\s*"((?:[^"\\]|\\.)*)"\s*(x(\d+|\?))?\s*$', arg, re.S)
+    m = re.match(r'\s*"((?:[^"\\]|\\.)*)"\s*=>\s*"((?:[^"\\]|\\.)*)"\s*(x(\d+|\?|\*))?\s*$', arg, re.S)
     if not m:
         raise ExtractError('bad substitution directive: ' + arg)
     un = lambda s: s.encode().decode('unicode_escape')
-    return un(m.group(1)), un(m.group(2)), (-1 if m.group(4) == '?' else int(m.group(4))) if m.group(4) else 1
+    return un(m.group(1)), un(m.group(2)), (-1 if m.group(4) == '?' else -2 if m.group(4) == '*' else int(m.group(4))) if m.group(4) else 1
 
 
 def process_fn_block(head, lines, meta, stub=False):
